@@ -10,11 +10,12 @@ WIDTH_BOUND = 1 << 48   # no string of 2^48 columns exists in a process
 
 
 class Contracts:
-    def __init__(self, fns, default_pure=False, extra_inline=()):
+    def __init__(self, fns, default_pure=False, extra_inline=(), fixed=None):
         self.fns = fns
         self.used = {}
         self.default_pure = default_pure
         self.extra_inline = tuple(extra_inline)
+        self.fixed = dict(fixed or {})   # callee regex -> concrete value: the scenario under which a fragment is explored
         self.table = [
             (r"^longest_filter$|^Arg::is_positional$|^builder::arg::Arg::is_positional$", self.inline, "longest_filter, Arg::is_positional: INLINED from their own MIR (not a contract)"),
             # (regex on callee text, handler, description)
@@ -35,6 +36,10 @@ class Contracts:
         ]
 
     def lookup(self, callee):
+        for rx, val in self.fixed.items():
+            if re.search(rx, callee):
+                self.used[f"scenario: {callee} returns {val[1]}"] = self.used.get(f"scenario: {callee} returns {val[1]}", 0) + 1
+                return lambda ex, c, argv, argkey, ty, pc, _v=val: _v
         for rx in self.extra_inline:
             if re.search(rx, callee):
                 self.used["INLINED from its own MIR: " + callee] = self.used.get("INLINED from its own MIR: " + callee, 0) + 1
